@@ -272,7 +272,18 @@ const _: (/* conversions */) = {
     }
     
     impl From<base::Node> for Node {
-        fn from(mut base: base::Node) -> Self {
+        fn from(base: base::Node) -> Self {
+            Node::from_base(base, None)
+        }
+    }
+
+    impl Node {
+        fn from_base(mut base: base::Node, parent_fangses: Option<&base::FangsList>) -> Self {
+            /* fangs of a node apply to everything below it */
+            if let Some(parent) = parent_fangses {
+                base.fangses.inherit(parent);
+            }
+
             /* skip compression on edge runtimes */
             #[cfg(feature="__rt_native__")]
             /* compress: merge single-child static pattern and compress routing tree */
@@ -280,11 +291,26 @@ const _: (/* conversions */) = {
                && base.handler.is_none()
                && base.pattern.as_ref().is_none_or(|p| p.is_static())
                && base.children[0].pattern.as_ref().unwrap(/* not root */).is_static()
+               /*
+                    ...and merging doesn't move any path into or out of the scope of fangs:
+                    a path matching `base` but not the merged pattern ends at the parent
+                    (at the root: at this node), so they must carry the same fangs,
+                    and a path matching the merged pattern has to get the child's fangs.
+               */
+               && match parent_fangses {
+                    Some(parent) => base.fangses.is_same_as(parent),
+                    None         => {
+                        let mut child_fangses = base.children[0].fangses.clone();
+                        child_fangses.inherit(&base.fangses);
+                        base.fangses.is_same_as(&child_fangses)
+                    }
+               }
             {
-                let child = base.children.pop().unwrap(/* base.children.len() == 1 */);
+                let mut child = base.children.pop().unwrap(/* base.children.len() == 1 */);
+                child.fangses.inherit(&base.fangses);
                 base.children = child.children;
                 base.handler = child.handler;
-                base.fangses.append(child.fangses);
+                base.fangses = child.fangses;
                 base.pattern = Some(match base.pattern {
                     None    => child.pattern.unwrap(/* not root */),
                     Some(p) => p.merge_statics(child.pattern.unwrap(/* not root */)).unwrap(/* both are Pattern::Static */)
@@ -306,12 +332,12 @@ const _: (/* conversions */) = {
             let proc = base.fangses.clone().into_proc_with(base.handler.unwrap_or(Handler::default_not_found()));
             #[cfg(feature="openapi")] let (proc, openapi_operation) = (proc.0, has_handler.then_some(proc.1));
 
-            let catch = base.fangses.into_proc_with(Handler::default_not_found());
+            let catch = base.fangses.clone().into_proc_with(Handler::default_not_found());
             #[cfg(feature="openapi")] let catch = catch.0;
 
             Node {
                 pattern:  base.pattern.map(Pattern::from).unwrap_or(Pattern::Static(b"")),
-                children: base.children.into_iter().map(Node::from).collect::<Vec<_>>().leak(),
+                children: base.children.into_iter().map(|c| Node::from_base(c, Some(&base.fangses))).collect::<Vec<_>>().leak(),
 
                 proc,
                 catch,
